@@ -283,7 +283,13 @@ func (w *World) enumChoice(path string, n *types.Named, ks []*types.Const) Value
 			names = w.Cfg.LeafCats
 		}
 		allowed = nil
+		// Go has no map type with a slice or map key, so a Thrift map whose key type is a container has no Go
+		// representation at all (C01 carries a rule and a known finding for it); the abstract domain leaves those out
+		isKey := strings.HasSuffix(strings.TrimSuffix(path, ".Category"), ".KeyType")
 		for _, nm := range names {
+			if isKey && (nm == "Map" || nm == "List" || nm == "Set") {
+				continue
+			}
 			for _, k := range ks {
 				if k.Name() == "Category_"+nm {
 					allowed = append(allowed, k)
